@@ -715,14 +715,42 @@ def rule_hop_cost(ctx, rep, config="c-lib"):
             if s_.op != "store" or resolve_addr(f, s_.ops[1]).root != out.root:
                 continue
             v = f.inst(strip_int_casts(f, s_.ops[0]))
-            if v is None or v.op != "add" or const_int(v.ops[1]) != 1:
+            if v is None or v.op != "add":
                 continue
-            l_ = f.inst(strip_int_casts(f, v.ops[0]))
-            if l_ is None or l_.op != "load" or resolve_addr(f, l_.ops[0]).root != out.root:
+            conds_ = None
+            if const_int(v.ops[1]) == 1:
+                l_ = f.inst(strip_int_casts(f, v.ops[0]))
+                conds_ = list(_controlling_conditions(f, s_.block.name))
+            else:
+                # cost + (the truth value of the test, kept in a local): the comparison the 0 / 1 is made from
+                l_ = None
+                for (x_, y_) in ((0, 1), (1, 0)):
+                    lx = f.inst(strip_int_casts(f, v.ops[x_]))
+                    if lx is not None and lx.op == "load" and resolve_addr(f, lx.ops[0]).root == out.root:
+                        l_ = lx
+                        work_, seen_, conds_ = [v.ops[y_]], set(), []
+                        while work_:
+                            o_ = strip_int_casts(f, work_.pop())
+                            if o_.get("k") != "i" or o_["v"] in seen_:
+                                continue
+                            seen_.add(o_["v"])
+                            i_ = f.insts.get(o_["v"])
+                            if i_ is None:
+                                continue
+                            if i_.op == "icmp":
+                                conds_.append((i_, True))
+                            elif i_.op in ("zext", "sext", "select"):
+                                work_.extend(x for x in i_.ops if isinstance(x, dict))
+                            elif i_.op == "phi" and all(const_int(x) in (0, 1) for (x, _) in i_.d["incoming"]):
+                                for (x, pb) in i_.d["incoming"]:
+                                    if const_int(x) == 1:
+                                        from .r4 import _edge_conditions
+                                        conds_.extend(_edge_conditions(f, pb, i_.block.name))
+            if l_ is None or l_.op != "load" or resolve_addr(f, l_.ops[0]).root != out.root or conds_ is None:
                 continue
             if not path_exists(f, c, s_, []):
                 continue
-            for (cc, pol) in _controlling_conditions(f, s_.block.name):
+            for (cc, pol) in conds_:
                 a, b = loaded_from(f, cc.ops[0]), loaded_from(f, cc.ops[1])
                 flds = set([(a.last_field() if a is not None else None), (b.last_field() if b is not None else None)])
                 if flds == set(["set_core.term", "grammar.term_error"]) and (cc.d["pred"] == "ne") == pol:
